@@ -179,8 +179,10 @@ class RuntimeV1_0(Runtime):
                     events, processing_log=processing_log
                 )
 
-                if len(next_events) == 0:
-                    next_events = [new_event_dict("Listen")]
+            # If there is nothing to do next (this can also be the case for a flow that
+            # was just started and is waiting for something), we listen.
+            if len(next_events) == 0:
+                next_events = [new_event_dict("Listen")]
 
             # Otherwise, we append the event and continue the processing.
             events.extend(next_events)
